@@ -83,7 +83,23 @@ def paired(ctx, fn, st, amt, block, consts):
     want = lin_of(amt, consts)
     if want is None:
         return None
-    for s in block:
+    # the statements of the block, then - when the block is an arm of an `if` - what follows that `if` in the block around it
+    # (both arms fall through to it), and so on outwards up to the enclosing loop or function
+    cands = list(block)
+    node = st
+    par = ctx.prog.parent.get(node)
+    while isinstance(par, ast.If):
+        outer = ctx.prog.parent.get(par)
+        lst = None
+        for field in ("body", "orelse", "finalbody"):
+            l_ = getattr(outer, field, None)
+            if isinstance(l_, list) and par in l_:
+                lst = l_
+        if lst is None:
+            break
+        cands += lst[lst.index(par) + 1:]
+        node, par = par, outer
+    for s in cands:
         if isinstance(s, ast.AugAssign) and isinstance(s.op, (ast.Add, ast.Sub)):
             v = lin_of(s.value, consts)
             if v is not None and v == want:
